@@ -79,6 +79,9 @@ pub enum Ev {
     /// analyze_unsolvable starts from this (falsified) clause
     #[serde(rename = "unsolv")]
     AnalyzeUnsolvable(u32),
+    /// decide() was called while this many clauses were allocated
+    #[serde(rename = "dec")]
+    Decide(u32),
 }
 /// A unit of work of the encoder (None = root)
 #[derive(Clone, Debug, Serialize, Deserialize, PartialEq, Eq)]
@@ -297,6 +300,7 @@ pub fn dump_obs(d: &resolvo::verif::VerifDump, core: Vec<u32>) -> Dump {
             VerifEvent::SoftRegister(s) => Ev::SoftRegister(*s),
             VerifEvent::EncodeResult(l) => Ev::EncodeResult(l.clone()),
             VerifEvent::AnalyzeUnsolvable(c) => Ev::AnalyzeUnsolvable(*c),
+            VerifEvent::Decide(n) => Ev::Decide(*n),
             VerifEvent::TaskDone(t) => {
                 use resolvo::verif::VerifTask as T;
                 let so = |x: u32| if x == u32::MAX { None } else { Some(x) };
